@@ -27,7 +27,8 @@ BoAtoms == { [id |-> "V11", dom |-> 1, ran |-> 1, dua |-> 1], [id |-> "V22", dom
              [id |-> "K12", dom |-> 1, ran |-> 2, dua |-> 2], [id |-> "T21", dom |-> 2, ran |-> 1, dua |-> 1],
              [id |-> "I11", dom |-> 1, ran |-> 1, dua |-> 1], [id |-> "H11", dom |-> 1, ran |-> 1, dua |-> 1],
              [id |-> "V33", dom |-> 3, ran |-> 3, dua |-> 3],
-             [id |-> "X12", dom |-> 1, ran |-> 2, dua |-> 1] }   \* range and dual space differ (rectangular mass matrix)
+             [id |-> "X12", dom |-> 1, ran |-> 2, dua |-> 1],    \* range and dual space differ (rectangular mass matrix)
+             [id |-> "S11", dom |-> 1, ran |-> 1, dua |-> 1] }   \* a real operator assembled with precision="single"
 \* d2 and e2 are given by their projections (dual representation) onto the dual spaces 2 and 1: what operator application returns
 GfAtoms == { [id |-> "f1", sp |-> 1], [id |-> "g1", sp |-> 1], [id |-> "f2", sp |-> 2], [id |-> "d2", sp |-> 2], [id |-> "e2", sp |-> 2] }
 PotAtoms == { [id |-> "p1", sp |-> 1], [id |-> "q1", sp |-> 1], [id |-> "p2", sp |-> 2] }
